@@ -131,7 +131,11 @@ pub fn check_response(raw: &[u8], id: u32, resp_len: usize) -> Result<(), String
 }
 
 async fn good_client(conn: Connector, tls: bool, id: u32, resp_len: usize) -> Result<(), String> {
-    let io = conn.connect().await.map_err(|e| format!("connect: {}", e.kind()))?;
+    // (a connect that is never answered - an accept loop that lost its wake-up - must not hang the run)
+    let io = match tokio::time::timeout(Duration::from_secs(30), conn.connect()).await {
+        Ok(r) => r.map_err(|e| format!("connect: {}", e.kind()))?,
+        Err(_) => return Err("connect: not accepted within 30 s of virtual time".into()),
+    };
     let exchange = async {
         let mut io: Box<dyn Io> = if tls {
             let c = tokio_rustls::TlsConnector::from(tlsfix::client_config(&[]));
